@@ -43,8 +43,8 @@ def run(ctx):
     helpers = {f.qualname} | {q for q in G.reach(f) if P.functions[q].cls is f.cls}
     check_footer(ctx, ht, 'C12.3', select=lambda g: g.qualname in helpers)
     ceilings(ctx, f)
-    symbolic(ctx, f)
     checked_reads(ctx, f)
+    symbolic(ctx, f)
 
 
 def guards(ctx, f):
@@ -146,6 +146,16 @@ def ceilings(ctx, f):
                     return l * rr
                 if isinstance(x.op, ast.FloorDiv):
                     return T.floordiv(l, rr)
+            if isinstance(x, ast.UnaryOp) and isinstance(x.op, ast.USub):
+                # -(-a // b) is ceil(a / b)
+                o = x.operand
+                if isinstance(o, ast.BinOp) and isinstance(o.op, ast.FloorDiv) and isinstance(o.left, ast.UnaryOp) and \
+                        isinstance(o.left.op, ast.USub):
+                    a_, b_ = ev(o.left.operand), ev(o.right)
+                    if a_ is not None and b_ is not None:
+                        return T.ceildiv(a_, b_)
+                v_ = ev(o)
+                return None if v_ is None else -v_
             return None
         v = ev(e)
         name = U(body[0].targets[0])
